@@ -39,7 +39,14 @@ def main(chk):
     b1.replay(chk, allunits, keyfn, sample=1500 if quick else None, seed=chk.seed, label='g')
     # B2: random well-typed terms (depth <= 4, up to 3 datasets, 1-3 identifiers, 1-3 measures)
     ru = termgen.random_units(rnd, 350 if quick else 5000) + termgen.random_ifds_units(rnd, 60 if quick else 1200) + termgen.random_caseds_units(rnd, 40 if quick else 800)     # + dataset-level if / case
-    lu, lo, _ = b1.validate(chk, ru, keyfn)
+    lu, lo, vv = b1.validate(chk, ru, keyfn)
+    # the same statements written as calls of user-defined operators (define operator f (p_1 dataset, ...) returns dataset is <body>):
+    # only statements the engine gets right as written are wrapped, so a failure here is the operator call's
+    good = [u for u, v in zip(lu, vv) if v['ok']]
+    uu = termgen.udo_wrap(good, rnd, share=0.35)
+    for u in uu:
+        u['nopack'] = True
+    b1.validate(chk, uu, lambda u: 'as user-defined operator | ' + keyfn(dict(u, term=u['term']['body'])), pack=1)
     b1.binding_demo(chk, lu, lo, corrupt)
     chk.cov['rule'] = ('B1: every transition of the TLC model GenOps (combination tables meeting every pair of pool values incl. null, '
                        'zero, negative, fractional; every operator at dataset, dataset-scalar, scalar-dataset and component level; every '
